@@ -33,6 +33,23 @@ fn spec_obs(v: &Value) -> Value {
     json!({"err": v["err"], "vis": v["vis"], "out": out})
 }
 
+/// One submission in the role it plays in a scenario.  Styles beyond eval / repl (compile then run):
+///  "defer": the earlier source and the rejected one are only compiled; `run` comes afterwards (see judge)
+///  "step":  the failing source is compiled and single-stepped until it fails
+fn submit_as(xs: &mut Xstate, src: &str, style: &str, role: &str) -> Outcome<Result<(), Xerr>> {
+    match (style, role) {
+        ("defer", "h1") | ("defer", "middle") => guarded(|| xs.compile(src)),
+        ("step", "middle") => guarded(|| {
+            xs.compile(src)?;
+            let mut k = 0;
+            while xs.is_running() && k < 5000 { xs.next()?; k += 1; }
+            Ok(())
+        }),
+        ("eval", _) => submit(xs, src, "eval"),
+        _ => submit(xs, src, "repl"),
+    }
+}
+
 pub fn judge(case: &Value) -> Option<Value> {
     let verdict = case["verdict"].as_str().unwrap_or("");
     if verdict.starts_with("skip") {
@@ -47,13 +64,13 @@ pub fn judge(case: &Value) -> Option<Value> {
     let mut b = fresh();
     for xs in [&mut a, &mut b] {
         if !h1.is_empty() {
-            let _ = submit(xs, &h1, style);
+            let _ = submit_as(xs, &h1, style, "h1");
             xs.read_stdout();
         }
     }
     let shape0 = shape(&a);
     let vis0 = stack_json(&a);
-    let rbad = submit(&mut a, &middle, style);
+    let rbad = submit_as(&mut a, &middle, style, "middle");
     a.read_stdout();
     match &rbad {
         Outcome::Done(Ok(())) => why.push("the middle source was not rejected".into()),
@@ -70,10 +87,17 @@ pub fn judge(case: &Value) -> Option<Value> {
     let mut oa = vec![];
     let mut ob = vec![];
     let mut limited = false;
+    if style == "defer" {
+        // now the code compiled before the rejected source arrived is run
+        let ra = guarded(|| a.run());
+        oa.push(obs(&mut a, &ra));
+        let rb = guarded(|| b.run());
+        ob.push(obs(&mut b, &rb));
+    }
     for p in &probes {
-        let ra = submit(&mut a, p, style);
+        let ra = submit_as(&mut a, p, style, "probe");
         let xa = obs(&mut a, &ra);
-        let rb = submit(&mut b, p, style);
+        let rb = submit_as(&mut b, p, style, "probe");
         let xb = obs(&mut b, &rb);
         if xa["err"] == "Limit" || xb["err"] == "Limit" {
             limited = true; // cumulative instruction meter: not judged from here on
